@@ -66,9 +66,10 @@ def ccid_frame(abdata):
 class Fault(object):
     """what the host link does wrong at host command number `index` (counted
     from begin()):
-      'w'       write() raises IOError(arg)
-      'a'       the read() that should deliver the ACK raises IOError(arg)
-      'r'       ACK is delivered, the read() for the response raises IOError(arg)
+      'w'       write() raises ioerror(arg)  (arg: errno value or a name from
+                ERROR_SHAPES - errors with and without an errno)
+      'a'       the read() that should deliver the ACK raises ioerror(arg)
+      'r'       ACK is delivered, the read() for the response raises ioerror(arg)
       'short'   the response frame is cut to its first `arg` bytes
       'garble'  the response frame (arg=None) or its first arg bytes are replaced by
                 symbolic bytes of the same length
@@ -78,7 +79,30 @@ class Fault(object):
         self.index, self.kind, self.arg = index, kind, arg
 
 
+class SerialException(IOError):
+    """pyserial's exception class (serial.serialutil.SerialException is an
+    IOError subclass); it is raised with a message only, so errno is None"""
+
+
+# the shapes in which a transport reports a host-link failure: with an errno
+# (nfc.clf.transport's own IOError(errno, strerror)), and without one (an
+# exception of the library below passed through: text only, no arguments, a
+# subclass instance).  The drivers must not assume error.errno is an int.
+ERROR_SHAPES = ('EIO', 'ENODEV', 'ETIMEDOUT', 'EPIPE', 'text', 'noargs',
+                'serial')
+
+
 def ioerror(code):
+    """code: an errno value, or one of ERROR_SHAPES"""
+    if isinstance(code, str):
+        if code == 'text':
+            return IOError("device disconnected")
+        if code == 'noargs':
+            return IOError()
+        if code == 'serial':
+            return SerialException("device reports readiness to read but "
+                                   "returned no data (device disconnected?)")
+        code = getattr(errno, code)
     return IOError(code, os.strerror(code))
 
 
